@@ -1,2 +1,5 @@
 -- Property files of work group I1 (import UF.Props.Cxx lines go here).
-import UF.Driver.Ops.GroupI1
+import UF.Props.C11Compose
+import UF.Props.C01Compose
+import UF.Props.C02Compose
+import UF.Props.C15Compose
